@@ -117,6 +117,98 @@ fn case_limits(c: &J, b: &Base, peers: &Peers) -> J {
     json!({"out": oj, "same_as_unlimited": same, "unlimited_code": uj["code"], "sizes": {"air": sizes[0] > 0, "particle": sizes[1] > 0, "result": sizes[2] > 0}})
 }
 
+/// preparation pipeline: which step fails first
+fn case_prep(c: &J, b: &Base, peers: &Peers) -> J {
+    let mut results = CallResults::new();
+    results.insert(b.b_req_id.to_string(), CallServiceResult { ret_code: 0, result: b.b_result.clone() });
+    let ver = air::interpreter_version().clone();
+    let cur: Vec<u8> = match c["cur"].as_str().unwrap_or("ok") {
+        "corrupt_outer" => {
+            let mut d = b.a2.clone();
+            for x in d.iter_mut().take(6) {
+                *x = 0xc1;
+            }
+            d
+        }
+        "old_version" => envelope_with_version(&b.a2, &semver::Version::new(0, 40, 0), false),
+        "corrupt_inner" => envelope_with_version(&b.a2, &ver, true),
+        "bad_store" => tamper_json(&b.a2, &|dj| {
+            if let Some(o) = dj["cid_info"]["value_store"].as_object_mut() {
+                for (_k, v) in o.iter_mut() {
+                    *v = J::String("\"tampered\"".into());
+                }
+            }
+        }),
+        "bad_sig" => tamper_json(&b.a2, &|dj| {
+            // drop every signature: the first attributed result has no signer
+            dj["signatures"] = json!({});
+        }),
+        _ => b.a2.clone(),
+    };
+    let script = if c["script"].as_str() == Some("unparsable") { "(seq (call".to_string() } else { b.script.clone() };
+    let sizes = (script.len() as u64, cur.len() as u64, b.b_result.len() as u64);
+    let lim = Limits {
+        air: if c["air_ex"].as_bool().unwrap_or(false) { sizes.0 - 1 } else { u64::MAX },
+        particle: if c["part_ex"].as_bool().unwrap_or(false) { sizes.1 - 1 } else { u64::MAX },
+        result: if c["results"].as_str() == Some("too_big") { sizes.2 - 1 } else { u64::MAX },
+        hard: c["hard"].as_bool().unwrap_or(false),
+    };
+    let o = run_raw_ext(peers, &script, &b.b1, &cur, "B", &lim, &results, c["results"].as_str() == Some("undecodable"), c["key"].as_str() == Some("bad"));
+    json!({"out": outcome_json(&o, &b.b1, peers, "particle-1")})
+}
+
+fn tamper_json(bytes: &[u8], f: &dyn Fn(&mut J)) -> Vec<u8> {
+    let env = InterpreterDataEnvelope::try_from_slice(bytes).expect("honest envelope");
+    let data = InterpreterData::try_from_slice(&env.inner_data).expect("honest inner");
+    let mut dj = serde_json::to_value(&data).expect("json");
+    f(&mut dj);
+    let t: InterpreterData = serde_json::from_value(dj).expect("typed");
+    InterpreterDataEnvelope::from_execution_result(t.trace, t.cid_info, t.signatures, t.last_call_request_id, env.versions.interpreter_version.clone())
+        .serialize()
+        .expect("serialize")
+}
+
+/// like net::run_raw, with optionally undecodable call results / an invalid key format
+fn run_raw_ext(peers: &Peers, script: &str, prev: &[u8], cur: &[u8], me: &str, lim: &Limits, results: &CallResults, bad_results: bool, bad_key: bool) -> net::RawOutcome {
+    use air_interpreter_interface::{CallResultsRepr, RunParameters};
+    use air_interpreter_sede::ToSerialized;
+    let kp = peers.kp_of(me);
+    let params = RunParameters::new(
+        peers.id_of("A"),
+        peers.id_of(me),
+        1_700_000_000,
+        5_000,
+        if bad_key { 200 } else { fluence_keypair::KeyFormat::Ed25519.into() },
+        kp.secret().expect("secret"),
+        "particle-1".to_string(),
+        lim.air,
+        lim.particle,
+        lim.result,
+        lim.hard,
+    );
+    let mut ser = CallResultsRepr.serialize(results).expect("ser");
+    if bad_results {
+        let mut v = ser.to_vec();
+        for x in v.iter_mut().skip(2).take(4) {
+            *x = 0xc1;
+        }
+        ser = v.into();
+    }
+    let (s, p, c) = (script.to_string(), prev.to_vec(), cur.to_vec());
+    match std::panic::catch_unwind(std::panic::AssertUnwindSafe(move || air::execute_air(s, p, c, params, ser))) {
+        Ok(o) => net::RawOutcome {
+            code: o.ret_code,
+            msg: o.error_message,
+            data: o.data,
+            next: o.next_peer_pks,
+            reqs_bytes: o.call_requests,
+            flags: [o.air_size_limit_exceeded, o.particle_size_limit_exceeded, o.call_result_size_limit_exceeded],
+            died: None,
+        },
+        Err(_) => net::RawOutcome { code: -1, msg: String::new(), data: vec![], next: vec![], reqs_bytes: vec![], flags: [false; 3], died: Some("panic".into()) },
+    }
+}
+
 /// lens case: value v (tagged) bound to scalar x via a service, path applied in a call argument under xor
 fn case_lens(c: &J, peers: &Peers) -> J {
     let v = proj::untag(&c["value"], peers);
@@ -717,6 +809,7 @@ pub fn cmd_fn(args: &[String]) -> i32 {
         let obs = match c["family"].as_str().unwrap_or("") {
             "version" => case_version(&c, &b, &peers),
             "limits" => case_limits(&c, &b, &peers),
+            "prep" => case_prep(&c, &b, &peers),
             "lens" => case_lens(&c, &peers),
             "parse" => case_parse(&c, &peers),
             "beautify" => case_beautify(&c, &peers),
